@@ -137,7 +137,27 @@ R4base(S, v, out) ==
             /\ Has(S, "type") /\ S.type = "number"
     [] OTHER -> out.k = v.k /\ JSame(v, out)
 
-R_C04(S, v, kind, out) == kind = "ok" => R4(S, v, out)
+(* Which branch builds (the mechanism the property names: "composition returns the first    *)
+(* successful branch's construction").  Stated only where the document leaves no doubt:    *)
+(* a schema that is nothing but an anyOf, or nothing but a type list over leaf keywords --  *)
+(* the result must be what the FIRST member accepting the value (per Draft6.tla, decided   *)
+(* members only) builds.  With other keywords next to the composition the base schema      *)
+(* builds, which R4 already covers.                                                        *)
+FirstBranch(S, v, out) ==
+  IF IsBoolSchema(S) THEN TRUE
+  ELSE LET members ==
+             IF DOMAIN S = {"sch", "anyOf"} THEN S.anyOf
+             ELSE IF Has(S, "types") /\ DOMAIN S \cap CompKwsR = {"types"}
+                  THEN [i \in 1..Len(S.types) |-> Minus(S, {"types", "default"}) @@ [type |-> S.types[i]]]
+                  ELSE <<>>
+           acc   == {i \in 1..Len(members) : Allowed(members[i], v) = {TRUE}}
+           undec == {i \in 1..Len(members) : Allowed(members[i], v) = BOOLEAN}
+       IN \/ acc = {}
+          \/ LET first == CHOOSE i \in acc : \A j \in acc : i <= j
+              IN \/ \E j \in undec : j < first
+                 \/ R4(members[first], v, out)
+
+R_C04(S, v, kind, out) == kind = "ok" => (R4(S, v, out) /\ FirstBranch(S, v, out))
 
 (***************************************************************************)
 (* C05  defaults fill omitted values, never override supplied ones         *)
